@@ -4,8 +4,9 @@ Profile `ops-conformance`: generated ordered pattern maps and templates
 (including clock-reading ones), histories over all entry points that reach
 init_from_template (template init, edit, action open, note move), user edits
 of initialised files, repeated inits and day changes.  The reference model
-decides which template, which variables and whether to write; the Jinja
-rendering itself is taken from the real ZorgTemplateManager (trusted).
+decides which template, which variables and whether to write, and
+preprocesses the template itself (header dropped, `## ` -> `# `); only Jinja2's
+own rendering of the preprocessed text is trusted.
 """
 
 from __future__ import annotations
@@ -48,6 +49,9 @@ TEMPLATES = {
     # two templates that share their basename (zorg builds templates into one
     # scratch directory keyed by basename)
     "tmpl/work/log.zot": "# Work log template\n\n## WORK LOG {{ name }}\n##\n## ^ = [[work_index]]\n\n################################ Work\n",
+    # line separators that only str.splitlines() honours must NOT end a template line
+    "tmpl/ff.zot": "# Form feed template\n\x0c\n## FF {{ name }}\n##\n## sub\n\n################################ Raw\x0c## kept {{ name }}\n- raw numbers\x0c##\n",
+    "tmpl/ls.zot": "# Line separator template \u2028 still header\n\n## LS {{ name }} \u2028## not a header line\n\n################################ Tail \x85 x\n",
     "tmpl/home/log.zot": "# Home log template\n\n## HOME LOG {{ name }}\n##\n## ^ = [[home_index]]\n\n################################ Home\n",
 }
 
@@ -55,6 +59,8 @@ PATTERNS = [
     [r"^logs/(?P<date>[0-9]{4}[01][0-9][0-3][0-9])\.zo$", "tmpl/date.zot"],
     [r"^logs/(?P<date>[0-9]+)\.zo$", "tmpl/wide.zot"],
     [r"^logs/.*\.zo$", "tmpl/plain.zot"],
+    [r"^ff/(?P<name>[a-z]+)\.zo$", "tmpl/ff.zot"],
+    [r"^ls/(?P<name>[a-z]+)\.zo$", "tmpl/ls.zot"],
     [r"^work/(?P<name>[a-z]+)\.zo$", "tmpl/work/log.zot"],
     [r"^home/(?P<name>[a-z]+)\.zo$", "tmpl/home/log.zot"],
     [r"^(?P<name>[a-z]+)/(?P<sub>[a-z0-9]+)\.zo$", "tmpl/name.zot"],
@@ -66,7 +72,7 @@ PATTERNS = [
 TARGETS = [
     "logs/20240229", "logs/20241231", "logs/20240101", "logs/20241339", "logs/123", "logs/abc", "kids/tom", "kids/ann",
     "proj/x1", "proj/alpha", "deep/er/path", "solo", "a_now", "logs/x_now", "nomatch/UPPER", "NoMatch", "kids/tom.zo",
-    "work/standup", "home/standup", "work/retro", "home/chores",
+    "work/standup", "home/standup", "work/retro", "home/chores", "ff/alpha", "ff/bravo", "ls/alpha",
 ]  # fmt: skip
 
 
@@ -147,18 +153,31 @@ def model_vars(vars_: dict) -> dict:
 
 
 def render(sim: core.Sim, tmpl: str, vars_: dict, scratch: str) -> str:
-    """The real renderer, run in the observer under the simulated date."""
-    core.init_worker()
-    import zorg.service.templates as tm
+    """Reference rendering: the template file minus its header (everything up to and
+    including the first blank line), with one `#` stripped from lines that start with
+    `## ` or are exactly `##`, rendered by Jinja2 itself (trusted) with the variables
+    and the `dt` module, under the simulated date.  zorg's own template code is NOT used."""
+    import jinja2
 
-    tdir = os.path.join(scratch, "obs-tmpl")
-    os.makedirs(tdir, exist_ok=True)
-    tm.ZorgTemplateManager.tmp_dir = types.SimpleNamespace(name=tdir)  # type: ignore[assignment]
+    core.init_worker()
+    with open(os.path.join(sim.zdir, tmpl), "r") as f:  # universal newlines, as zorg reads it
+        text = f.read()
+    # lines end at "\n" only (a form feed or U+2028 inside a line does not end it)
+    lines = text.split("\n")
+    lines = [ln + "\n" for ln in lines[:-1]] + ([lines[-1]] if lines[-1] else [])
+    body: list[str] = []
+    seen_blank = False
+    for ln in lines:
+        if not seen_blank:
+            if not ln.strip():
+                seen_blank = True
+            continue
+        body.append(ln[1:] if ln.startswith("## ") or ln.strip() == "##" else ln)
     saved = core.CLOCK.ordinal
     core.set_day(sim.day)
     try:
-        mgr = tm.ZorgTemplateManager(Path(sim.zdir))
-        return mgr.render(Path(sim.zdir) / tmpl, vars_)
+        env = jinja2.Environment()
+        return env.from_string("".join(body)).render(dict(vars_) | {"dt": core.DT_SHIM})
     finally:
         core.set_day(saved)
 
